@@ -64,6 +64,37 @@ CHECKS["C13"] = (
     "DESIGN.md section 3, C13",
 )
 
+CHECKS["C02"] = (
+    "differential property-based testing: derived interval stream vs pointwise daily evaluation, plus whole-range streams",
+    "For generated expressions, calendars and windows (any position incl. far outside the supported range, sub-second bounds, up to 12 years; a UTC locale with coordinates for day-varying sun events) the complete list of intervals from iter_range must equal the concatenated, clipped and merged daily schedules; the thorough tier compares iter_from(1900) with all 2.96 M days for 256 expressions. Hook H1 shows whether days were actually skipped.",
+    "Trusted: schedule_at as pointwise oracle (C01). Interval-size bounds are excluded (C16), zone transitions are C09.",
+    "DESIGN.md section 3, C02",
+)
+CHECKS["C03"] = (
+    "differential property-based testing against a brute-force forward scan; metamorphic relation inside an interval",
+    "state and its three predicates are compared with the minute of the daily schedule; next_change with a brute-force scan of daily schedules (exact in the 9984-9999 band and in the uncapped thorough sub-check, 1 200-day horizon plus boundary/interior probes elsewhere); strictly after t, never >= 10000-01-01, identical for instants inside the interval.",
+    "Trusted: schedule_at as pointwise oracle. Quick tier skips (and counts) calls that need more than 60 000 day schedules.",
+    "DESIGN.md section 3, C03",
+)
+CHECKS["C08"] = (
+    "property-based testing with a direct oracle on instants concentrated at and far outside the bounds of the supported range",
+    "For expressions whose selectors straddle 1900 / 9999 and instants within days, minutes and seconds of both bounds or far outside: closed outside, intervals inside [from, min(to, 10000-01-01)] and gap-free, next_change never before 1900 nor >= 10000 and exactly the first non-closed instant when starting before 1900.",
+    "Trusted: schedule_at for the exact next_change comparisons; calls over 60 000 day schedules are skipped and counted.",
+    "DESIGN.md section 3, C08",
+)
+CHECKS["C16"] = (
+    "differential property-based testing: bounded vs exact next_change with bounds placed at the decision thresholds",
+    "For generated expressions and instants the bound B is placed at, one minute around, and 24 h (+-1 min) beyond the distance of the exact next change, or drawn log-uniformly from 1 day to 60 years; the bounded answer must be exact or none, exact when the change lies within B - 24 h, none when beyond B, and state must be unchanged.",
+    "Trusted: forward scan of schedule_at reaching beyond t + B as the exact answer.",
+    "DESIGN.md section 3, C16",
+)
+CHECKS["C17"] = (
+    "property-based testing: invariants on generated expressions + provenance on expressions constructed so that the contributing rule is known",
+    "Comments of every schedule range and interval are strictly increasing and drawn from the expression's rules, absent outside 1900..9999 and on days no rule reaches (all rules year-bounded, probes years away); constructed additional rules with separated spans must each carry exactly their own comment set; the first interval carries the comments of the schedule period containing the start instant.",
+    "Trusted: provenance is asserted only where known by construction.",
+    "DESIGN.md section 3, C17",
+)
+
 NOT_YET = {}
 
 def main():
